@@ -91,6 +91,10 @@ class Scenario:
         """Network latency as a scenario parameter: may this item reach the client now?"""
         return True
 
+    def serve_fault(self, env: "Env", req: Request) -> str | None:
+        """Scripted (parameter-driven, not deviation-driven) answers: a fault kind instead of serving."""
+        return None
+
     def instants(self, env: "Env") -> Iterable[float]:
         """Extra instants at which `time` must stop (e.g. the end of a network hold)."""
         return ()
@@ -290,8 +294,12 @@ class Env:
             if req is None:
                 raise HarnessError(f"no pending request {rest!r}")
             if verb == 'serve':
-                w.apply(req)
-                w.respond(req)
+                scripted_fault = self.scenario.serve_fault(self, req)
+                if scripted_fault is not None:
+                    w.fail(req, scripted_fault)
+                else:
+                    w.apply(req)
+                    w.respond(req)
             elif verb == 'delay':
                 w.apply(req)
                 self.parked.add(req.rid)
